@@ -10,8 +10,8 @@ What the documentation establishes (sources in brackets) and what this check the
     call, and ncmpi_def_var_fill afterwards overrides it for one variable  [RELEASE_NOTES 1.10.0 "Discrepancy from
     NetCDF library"]; the old mode is returned  [pnetcdf.h prototype, examples/C/fill_mode.c]
   * the fill value is the variable's _FillValue attribute (same type, one element) if present, else the NC_FILL_*
-    default of the type; ncmpi_def_var_fill with a value defines that value; putting the attribute does not change the
-    variable's fill MODE  [pnetcdf.h comments, man page, RELEASE_NOTES 1.9.0, examples/C/fill_mode.c]
+    default of the type; ncmpi_def_var_fill with a value defines that value; putting or deleting the attribute does
+    not change the variable's fill MODE  [pnetcdf.h comments, man page, RELEASE_NOTES 1.9.0, examples/C/fill_mode.c]
   * ncmpi_inq_var_fill reports no_fill and the user-defined or default value  [dispatcher comment, fill_mode.c]
   * ncmpi_fill_var_rec on a variable whose fill mode is off: NC_ENOTFILL  [pnetcdf.h]
   * variables added by a redefinition are filled including their share of the existing records  [property statement,
@@ -48,7 +48,7 @@ PROP = "C16"
 RULE = ("Hypothesis-generated histories on CDF-1/2/5 files, k=1..4 ranks, dimension lengths 1,2,3,5,7 (element counts mostly not "
         "divisible by k), 1-3 define scopes (create, redef, close+reopen+redef) each defining 1-4 variables of any external type "
         "with set_fill(NC_FILL/NC_NOFILL) before/between/after the definitions, def_var_fill(no_fill 0/1, with/without value), "
-        "_FillValue attributes (put_att, type of the variable, one element), enddef or _enddef with alignments; data phases with "
+        "_FillValue attributes (put_att, type of the variable, one element; del_att), enddef or _enddef with alignments; data phases with "
         "collective put_vara of sub-blocks split over the ranks, fill_var_rec on existing and new records (numrecs 0..5), "
         "fill_var_rec on no-fill variables (NC_ENOTFILL). Oracle: FileM model with masks (unknown/written/fill): after every "
         "enddef, on request and at the end every rank reads every variable (dumpall) and written and filled elements must match, "
@@ -195,7 +195,7 @@ def case_strategy(draw, tier="quick"):
         if si > 0:
             sc["reopen"] = G.chance(draw, 25)
             mo.begin_scope(sc["reopen"])
-        n_new = draw(st.integers(1, 4 if si == 0 else 3))
+        n_new = draw(st.integers(1, 4)) if si == 0 else draw(st.sampled_from([0, 1, 1, 2, 2, 3]))
         extras = draw(st.integers(0, 4))
         todo = n_new
         while todo > 0 or extras > 0:
@@ -206,6 +206,8 @@ def case_strategy(draw, tier="quick"):
                 choices += ["set_fill"]
                 if len(mo.vars) > mo.first_new:
                     choices += ["var_fill", "var_fill", "att_fv"]
+                    if any(v["att"] is not None for v in mo.vars[mo.first_new:]) and G.chance(draw, 30):
+                        choices += ["del_fv"]
                 if G.chance(draw, 10):
                     choices += ["gatt"]
             a = draw(st.sampled_from(choices))
@@ -236,6 +238,10 @@ def case_strategy(draw, tier="quick"):
                 fvs = draw(st.integers(0, 10 ** 6))
                 mo.att_fv(v, user_fill(mo.vars[v]["xt"], fvs))
                 sc["defs"].append({"a": "att_fv", "v": v, "fv": fvs})
+            elif a == "del_fv":
+                v = draw(st.sampled_from([i for i in range(mo.first_new, len(mo.vars)) if mo.vars[i]["att"] is not None]))
+                mo.att_fv(v, None)
+                sc["defs"].append({"a": "del_fv", "v": v})
             else:
                 sc["defs"].append({"a": "gatt", "n": draw(st.sampled_from([3, 40, 600]))})
         if G.chance(draw, 25):
@@ -262,13 +268,17 @@ def case_strategy(draw, tier="quick"):
                 v = draw(st.sampled_from(notfill))
                 sc["data"].append({"a": "enotfill", "v": v, "rec": draw(st.integers(0, MAXREC - 1))})
             else:
-                v = draw(st.integers(0, len(mo.vars) - 1))
+                recs = [i for i, x in enumerate(mo.vars) if x["rec"]]
+                if recs and si < nscopes - 1 and G.chance(draw, 40):
+                    v = draw(st.sampled_from(recs))      # grow the record count before the next redefinition
+                else:
+                    v = draw(st.integers(0, len(mo.vars) - 1))
                 d = mo.vars[v]
                 if not d["dims"] and k > 1:
                     continue        # a scalar has no zero-length vara request for the peers; written only when k == 1
                 shape = [dims[x] for x in d["dims"]]
                 if d["rec"]:
-                    shape[0] = max(1, min(MAXREC, numrecs + draw(st.integers(0, 2))))
+                    shape[0] = max(1, min(MAXREC, numrecs + draw(st.integers(0, 3))))
                 start, count, stride = draw(G.box(shape, allow_zero=False, stride=False))
                 parts = G.split_box(draw, start, count, stride, k)
                 if d["rec"]:
@@ -373,6 +383,13 @@ def build(case):
                 mo.att_fv(v, val)
                 p.op("put_att", step=True, f="f0", v=v, name=hx("_FillValue"), xt=xt, mt=M.XT_NATIVE_MT[xt], n=1, hex=native_bytes(val, xt))
                 labels.add("att_FillValue")
+            elif kind == "del_fv":
+                v = a["v"]
+                if not mo.is_new(v) or mo.vars[v]["att"] is None:
+                    continue
+                mo.att_fv(v, None)
+                p.op("del_att", step=True, f="f0", v=v, name=hx("_FillValue"))
+                labels.add("del_att_FillValue")
             elif kind == "gatt":
                 p.op("put_att", step=True, f="f0", v=-1, name=hx("g%d" % ngatt), xt=M.NC_CHAR, mt="text", n=a["n"], hex=b"z" * a["n"])
                 ngatt += 1
@@ -574,7 +591,7 @@ def coverage_extra(stats, tier):
 
 
 def campaign(ctx):
-    n = {"quick": 90, "thorough": 1500}[ctx.tier]
+    n = {"quick": 120, "thorough": 2500}[ctx.tier]     # per worker
     runner.run_hypothesis(ctx, case_strategy(ctx.tier), runner.guarded(run_case), n)
 
 
